@@ -8,6 +8,7 @@ A_STRUCT = 'A4: derived PartialEq on the crate\'s enums/structs is structural eq
 A_PRIV = 'A5: fields of Ps2Decoder/ScancodeSet1/ScancodeSet2/EventDecoder/Keyboard are private and the crate has no `unsafe` (scanned each run), so representation invariants cannot be broken between calls'
 A_RUSTC = 'A6: rustc compiles the source to the semantics Verus and Kani assume'
 A_COUNT = 'A3a: assume_specification u8::count_ones(x) == sum of the 8 bits (discharged by Kani on the real core library: harness count_ones_is_bit_sum, all 256 inputs)'
+A_FROMBOOL = 'A3d: assume_specification <u16|u8 as From<bool>>::from(b) == b as u16|u8 (spellings a refactoring may use; discharged by Kani: harness int_from_bool_is_cast, both inputs)'
 A_CHAR = 'A3b: assume_specification <char as From<u8>>::from(x) == x as char (discharged by Kani: harness char_from_u8_is_cast, all 256 inputs)'
 A_PRED = ('A3c: the five Modifiers predicates are external_body in Verus (bool `|`,`&`,`^` are outside its dialect); their derived copies are '
           'proved equal to the compiled predicates by Kani for all 512 Modifiers values (harness predicates_equal_copies)')
@@ -29,11 +30,11 @@ PROPS = {
             'technique': 'Verus postcondition mods\' == mods_step(mods, ev) on the real process_keyevent + induction lemma over Seq<KeyEvent> + verified clients'},
     'C05': {'kani_scenarios': ['word'], 'lemmas': ['c05'], 'assume': BASE + [A_COUNT, A_KANI], 'kani': ['count_ones_is_bit_sum'], 'design': 'DESIGN.md section 3, C05',
             'technique': 'Verus postcondition r == frame_ref(word) on the real check_word/add_word + bit-vector lemmas (round trip, single-bit corruption); Kani discharges the count_ones assumption'},
-    'C06': {'kani_scenarios': ['bits'], 'lemmas': ['c06'], 'assume': BASE + [A_PRIV, A_COUNT, A_KANI], 'kani': ['count_ones_is_bit_sum'], 'design': 'DESIGN.md section 3, C06',
+    'C06': {'kani_scenarios': ['bits'], 'lemmas': ['c06'], 'assume': BASE + [A_PRIV, A_COUNT, A_FROMBOOL, A_KANI], 'kani': ['count_ones_is_bit_sum', 'int_from_bool_is_cast'], 'design': 'DESIGN.md section 3, C06',
             'technique': 'Verus invariant wf + step postcondition ps2_step on the real add_bit/clear/new + induction over frames and streams of frames + verified clients'},
     'C07': {'lemmas': ['c07'], 'assume': BASE + [A_PRIV], 'kani': [], 'design': 'DESIGN.md section 3, C07',
             'technique': 'Verus automaton postconditions on both real advance_state functions + rank/resync lemmas over Seq<u8> by induction'},
-    'C08': {'kani_scenarios': ['word', 'bits', 'events'], 'denotations': 'all', 'lemmas': [], 'assume': BASE + [A_PRIV, A_COUNT, A_CHAR, A_PRED, A_KANI], 'kani': ['count_ones_is_bit_sum', 'char_from_u8_is_cast', 'predicates_equal_copies'],
+    'C08': {'kani_scenarios': ['word', 'bits', 'events'], 'denotations': 'all', 'lemmas': [], 'assume': BASE + [A_PRIV, A_COUNT, A_FROMBOOL, A_CHAR, A_PRED, A_KANI], 'kani': ['count_ones_is_bit_sum', 'int_from_bool_is_cast', 'char_from_u8_is_cast', 'predicates_equal_copies'],
             'design': 'DESIGN.md section 3, C08',
             'technique': 'Verus built-in overflow / shift-range / panic-unreachable obligations on every exec function under the representation invariants'},
     'C09': {'needs_invariants': False, 'denotations': 'layouts', 'lemmas': [], 'support_lemmas': ['ldefs'], 'cellgens': ['layout_cells'], 'assume': BASE + [A_CHAR, A_PRED, A_KANI], 'kani': ['char_from_u8_is_cast', 'predicates_equal_copies'], 'design': 'DESIGN.md section 3, C09',
@@ -56,6 +57,6 @@ PROPS = {
             'technique': 'Verus: injectivity of the six derived table denotations via verified inverse maps (hint from the real code, checked by Verus); make/break pairing lemmas over the automaton contracts + verified clients'},
     'C17': {'needs_invariants': False, 'denotations': 'wrappers', 'lemmas': ['c17'], 'cellgens': ['anylayout_cells'], 'assume': BASE + [A_CHAR, A_PRED, A_KANI], 'kani': ['char_from_u8_is_cast', 'predicates_equal_copies'], 'design': 'DESIGN.md section 3, C17',
             'technique': 'Verus lemmas per variant and wrapper form over the denotations of the two real AnyLayout::map_keycode impls (derived from their bodies, proved equal to them) + verified client'},
-    'C18': {'lemmas': ['c18'], 'assume': BASE + [A_PRIV, A_COUNT, A_KANI], 'kani': ['count_ones_is_bit_sum'], 'design': 'DESIGN.md section 3, C18',
+    'C18': {'lemmas': ['c18'], 'assume': BASE + [A_PRIV, A_COUNT, A_FROMBOOL, A_KANI], 'kani': ['count_ones_is_bit_sum', 'int_from_bool_is_cast'], 'design': 'DESIGN.md section 3, C18',
             'technique': 'Verus frame postconditions on all nine Keyboard methods (generic in S, L) + verified simulation clients: Keyboard vs three separate stages'},
 }
